@@ -41,6 +41,9 @@ def slot_exprs(k):
         (lambda: S(""), ""),
         (lambda: A.Prop(A.obj(("p", S("😀"))), "p", False), "😀"),
         (lambda: S('a"q"'), 'a"q"'),
+        (lambda: S('5" nail'), '5" nail'),                      # an odd number of escaped quotes inside a slot
+        (lambda: A.call("sf%d" % k, S('"')), '""'),
+        (lambda: S('{"}'), '{"}'),
     ]
 
 
